@@ -266,7 +266,16 @@ def run(check, an: Analysis):
     # every queue has state of its own, made by its constructor (a default in the class
     # body would be one object shared by all of them), and its put()/close() are over after
     # one postponement: they never wait for consumers
-    for field, fresh in (('_buffer', True), ('_notification', True), ('_read_mutex', True), ('_closed', False)):
+    # (the mutex that orders the receivers: the attribute the constructor makes a Lock for)
+    qinit = an.method(QUEUE, '__init__')
+    mutexes = [ast.unparse(t)[len('self.'):] for n in ast.walk(qinit.node)
+               if isinstance(n, (ast.Assign, ast.AnnAssign)) and isinstance(n.value, ast.Call)
+               and ast.unparse(n.value.func).split('.')[-1] == 'Lock'
+               for t in (n.targets if isinstance(n, ast.Assign) else [n.target])
+               if ast.unparse(t).startswith('self.')]
+    for field, fresh in (('_buffer', True), ('_notification', True),
+                         (mutexes[0] if len(mutexes) == 1 else '_read_mutex', True),
+                         ('_closed', False)):
         made = rules.constructor_field(an, QUEUE, field)
         ok = made is not None and (not fresh or isinstance(made, (ast.Call, ast.Dict, ast.List)))
         if not fresh and made is None:
